@@ -30,6 +30,7 @@ pub fn new_box(area: &str) -> Option<Box<dyn VerifBox>> {
             crate::protocol::libp2p::kademlia::verif_c14_new(),
         )),
         "c18" => Some(Box::new(c18::PeerIdBox::new())),
+        "c04" => Some(Box::new(crate::substream::verif_c04::SubstreamBox::new())),
         _ => None,
     }
 }
@@ -42,6 +43,7 @@ pub fn areas() -> Vec<&'static str> {
         "c18",
         "c19",
     ]
+    vec!["c04", "c17"]
 }
 
 /// Decode a hex string.
